@@ -27,4 +27,6 @@ EXTRAS = [
     lambda rep, fb, tier: __import__("vf.rules.lints", fromlist=["x"]).rule_reducer_identity(rep, fb),
     lambda rep, fb, tier: __import__("vf.rules.lints", fromlist=["x"]).rule_ctor_roles(rep, fb),
     lambda rep, fb, tier: __import__("vf.rules.lints", fromlist=["x"]).rule_call_roles(rep, fb),
+    lambda rep, fb, tier: __import__("vf.rules.lints2", fromlist=["x"]).rule_dtype_case_methods(rep, fb),
+    lambda rep, fb, tier: __import__("vf.rules.lints2", fromlist=["x"]).rule_minmax_direction(rep, fb),
 ]
